@@ -16,6 +16,6 @@ MANIFEST = dict(
     technique="Coq proof: symbolic evaluation of the codec model on the spec layout of an arbitrary well-formed TPDU (lists of any admissible length by induction, calendar and octet domains by kernel sweep) + complete 256-row tables from the code + vm_compute correspondence",
     text="Theorems in coq/Properties/C19.v: for every well-formed SMS-DELIVER / SMS-SUBMIT value of the GSM 03.40 layout model outside the listed known classes, "
          "Unmarshal then Marshal reproduces the octets and the decoded structure carries the standard's values; complete tables for relative validity periods and first octets; "
-         "refutation witnesses for each known class (D19, D21, D22, D24) and for the pre-fix code (D20, D23).",
+         "refutation witnesses for the known classes that remain (alphanumeric address of 7 septets, of 8 septets ending in CR, D16) and for the pre-fix code (D19, D20, D21 length, D22, D23, D24).",
     note="Trusted: Coq kernel + vm_compute; the hand-transcribed spec; dumper and printers; Go library code. No axioms.",
 )
